@@ -109,7 +109,10 @@ def run(facts, rep):
             if step is None:
                 rep.indet('E24: fold step of MultiDeg::cmp_lex outside the recognised fragment')
                 continue
-            if not m or (m.group(1), m.group(2)) != ('self', 'other'):
+            if not m:
+                rep.indet('E24: fold step of MultiDeg::cmp_lex outside the recognised fragment: %s' % step[:160])
+                continue
+            if (m.group(1), m.group(2)) != ('self', 'other'):
                 probs.append('the fold step is %s, expected res.then_with(|| cmp(self[i], other[i]))' % step)
             if probs:
                 rep.violation('E24.lex-order', inst, '; '.join(probs), where=b.where())
